@@ -106,7 +106,8 @@ def handlePrint (op : String) (args : List Sexp) : Option Sexp := do
       | .ok a => tagged "ok" [astToSexp a]
       | .error m => tagged "err" [atom "syntax", atom (clean m)]
     let re := errOrOk Codec.exprToSexp (PyEval.parseY0 lt toks)
-    pure (tagged "ok" [built, list (atom "t" :: toks.map tokToSexp), ast, re, atom "true"])
+    pure (tagged "ok" [built, list (atom "t" :: toks.map tokToSexp), ast, re,
+      atom (toString (Print.wf e && PyEval.built lt e)), atom (toString (PyEval.simple e))])
   | "parse", [list (atom "t" :: ts)] =>
     let toks ← ts.mapM tokOf?
     pure (match PyParse.parse toks with
